@@ -33,11 +33,11 @@ def excOfName (s : String) : Py.Exc :=
   | "RecursionError" => .RecursionError | "UnicodeDecodeError" => .UnicodeDecodeError
   | "UnicodeEncodeError" => .UnicodeEncodeError | _ => .NotImplemented
 
-def parsePre (t : String) : Option CheckPlurals.Preimage :=
+def parsePre (tmpl : Bool) (t : String) : Option CheckPlurals.Preimage :=
   if t == "N" then none
   else if t == "E" then some []
   else if t.startsWith "H:" then
-    preimageOfHeader (((t.drop 2).toString.splitOn ",").map Driver.unhexChars)
+    preimageOfHeader tmpl (((t.drop 2).toString.splitOn ",").map Driver.unhexChars)
   else
     some ((t.splitOn "/").map fun kv =>
       match kv.splitOn ":" with
@@ -99,7 +99,7 @@ partial def parseFormats (pfx repr : Extra) : Nat → List String → List (List
 def handle (op : String) (args : List String) : String :=
   match op, args with
   | "run", tmpl :: enc :: pre :: fuzzy :: rmin :: rmax :: pfx :: repr :: nfmt :: rest =>
-    let ctx : Ctx := ⟨tmpl == "1", enc == "1", parsePre pre⟩
+    let ctx : Ctx := ⟨tmpl == "1", enc == "1", parsePre (tmpl == "1") pre⟩
     let fl : Flags := ⟨fuzzy == "1", rmin.toNat!, if rmax == "inf" then none else some rmax.toNat!⟩
     let formats := parseFormats (.safe (Driver.unhexChars pfx)) (.safe (Driver.unhexChars repr)) nfmt.toNat! rest
     showResult (checkFormats ctx fl formats)
@@ -112,7 +112,7 @@ def handle (op : String) (args : List String) : String :=
       | .ok (some c) => s!"ok {c}"
     | _ => "err parse"
   | "pre", [t] =>
-    match parsePre t with
+    match parsePre false t with
     | none => "none"
     | some p => "/".intercalate (p.map fun kv => s!"{kv.1}:" ++ ",".intercalate (kv.2.map toString))
   | _, _ => "bad-op"
